@@ -92,7 +92,7 @@ def run(ctx) -> None:
         ctx.count("iterable_params")
         ownership.check_param(ctx, "R18.1", unit, pname, src, kinds=ownership.SUSPENSION_KINDS)
     r18_2(ctx)
-    ctx.floor("iterable_params", 30)
+    ctx.floor("iterable_params", 20)
     ctx.floor("lock_async_with_sites", 2)
     r18_3(ctx)
     r18_4(ctx)
